@@ -6,6 +6,7 @@
 -/
 import FFS.Model.AbiIO
 import FFS.Prim.Keccak
+import FFS.Model.Secp
 import FFS.Gen.Eip712Facts
 namespace FFS.Model.Eip712
 open FFS FFS.Model.Abi
@@ -240,6 +241,19 @@ def encodeTypedDataV4 (fuel : Nat) (p : TypedData) : Outcome Bytes :=
       else .ok (keccak ([0x19, 0x01] ++ dh))
     | .err => .err
     | .panic => .panic
+
+/-- `ethsigner.SignTypedDataV4`: the digest is signed directly (no second hash); the result carries the 65-byte
+    R ‖ S ‖ V form -/
+def signTypedDataV4 (C : FFS.Model.Secp.Curve) (k : Nat) (fuel : Nat) (p : TypedData) : Outcome (Bytes × Bytes) :=
+  match encodeTypedDataV4 fuel p with
+  | .ok digest =>
+    match FFS.Model.Secp.compactRSV (FFS.Model.Secp.signDirect C k digest) with
+    | .ok sig => .ok (digest, sig)
+    | .err => .err
+    | .panic => .panic
+  | .err => .err
+  | .panic => .panic
+
 
 /-! ### fuel that covers a document (proved sufficient in Props.C14) -/
 
